@@ -277,6 +277,16 @@ func runCloseCase(e *Env, idx int, c CCase) {
 	if e.Hooks != nil && (c.Strike == "enq.registered" || c.Strike == "snd.dequeued" || c.Strike == "snd.beforeWrite") {
 		hold = e.Hooks.Hold(c.Strike, ids[0], 0, e.W+4*time.Second)
 	}
+	// for nodes that were down at creation: hold the sender when it dequeues its *second* request, i.e. after the dial for the first
+	// one gave up; Close then certainly gets to the node before the sender dials again
+	var lateHolds []*h.Held
+	if e.Hooks != nil {
+		for j := 0; j < c.N; j++ {
+			if strings.HasPrefix(c.States[j], "down-then-up") && c.Block && len(c.Calls) == 0 {
+				lateHolds = append(lateHolds, e.Hooks.Hold("snd.dequeued", ids[j], 1, e.W+4*time.Second))
+			}
+		}
+	}
 	var inflight []*h.Task
 	for _, k := range c.Calls {
 		inflight = append(inflight, issue(k, context.Background(), 77))
@@ -338,6 +348,11 @@ func runCloseCase(e *Env, idx int, c CCase) {
 			time.Sleep(400 * time.Millisecond)
 		}
 	}
+	defer func() {
+		for _, hd := range lateHolds {
+			e.Hooks.Disarm(hd)
+		}
+	}()
 	for _, t := range closers {
 		hi := h.Await(t, e.W)
 		if hi.Verdict == h.Hung {
@@ -350,6 +365,17 @@ func runCloseCase(e *Env, idx int, c CCase) {
 			R.Violate("close-panics", fmt.Sprintf("Manager.Close panicked: %.200v", t.Panic), det)
 			return
 		}
+	}
+	for _, hd := range lateHolds {
+		select {
+		case <-hd.Reached():
+			R.Count("steering.sender_held_at_second_dequeue_until_close_returned", 1)
+		default:
+		}
+		e.Hooks.Disarm(hd)
+	}
+	if len(lateHolds) > 0 {
+		time.Sleep(250 * time.Millisecond) // a late dial (100 ms timeout) would happen now
 	}
 	if c.Twice {
 		t := h.Go("Close-again", func() { mgr.Close() })
